@@ -58,6 +58,7 @@ class Channel(ClientMessageSink):
     self.requests = []
     self._open_ar = None
     self.outstanding = 0      # model: dispatched to this channel and not completed
+    self.open_done_at = None
     self.removed_at = None    # step at which its endpoint left the server set
 
   def __repr__(self):
@@ -78,10 +79,12 @@ class Channel(ClientMessageSink):
         if self.open_fail:
           if self._state == ChannelState.Idle:
             self._state = ChannelState.Closed
+          self.open_done_at = loop.now()
           ar.set_exception(Exception('open failed %r' % self))
         else:
           if self._state == ChannelState.Idle:
             self._state = ChannelState.Open
+          self.open_done_at = loop.now()
           ar.set(True)
       if self.open_delay:
         gevent.spawn(impl)
@@ -281,7 +284,13 @@ class LBRun(object):
     def adjust(amount):
       s0 = lb._size
       idle0 = bool(lb._idle_endpoints)
-      pending0 = bool(lb._pending_endpoints)
+      # an expansion is pending while the channel it added is still opening (modelled from the harness's own channels,
+      # not read from the balancer's bookkeeping)
+      pending0 = any(n.channel._open_ar is not None and not n.channel._open_ar.ready() for n in lb._heap[1:])
+      # ... and for a few event-loop turns after it has opened: the balancer learns of the completion through a
+      # continuation that runs on a later turn (each turn costs 1 us of virtual time)
+      pending_maybe = not pending0 and any(n.channel.open_done_at is not None and loop.now() - n.channel.open_done_at < 200e-6
+                                           for n in lb._heap[1:])
       healthy0 = healthy()
       total0 = lb._total
       ctx['adjust'] += 1
@@ -332,7 +341,7 @@ class LBRun(object):
           self.flags.add('load_contract')
         else:
           want = s0
-        if s1 != want:
+        if s1 != want and not (pending_maybe and want == s0 - 1 and s1 == s0):
           self.viol('C06', 'direction', 'adjust(%+d): load average %.4f (band %r..%r), size %d -> %d, expected %d (idle=%r pending=%r healthy=%d min_size=%d max_size=%d)' % (
               amount, L, a['min_load'], a['max_load'], s0, s1, want, idle0, pending0, healthy0, a['min_size'], a['max_size']))
         if s1 > s0 and s1 > a['max_size']:
